@@ -1,6 +1,7 @@
 //! Simulated worlds (engines).
 pub mod frost;
 pub mod hash;
+pub mod lms;
 pub mod mangle;
 pub mod selftest;
 pub mod suite;
@@ -28,10 +29,22 @@ fn run_frost(t: &mut Tape, tier: Tier, out: &mut RunOut) {
     }
 }
 
+fn run_lms(t: &mut Tape, tier: Tier, out: &mut RunOut) {
+    let set = t.usize(4);
+    let cfg = lms::Cfg { thorough: tier == Tier::Thorough };
+    match set {
+        0 => lms::run::<lms::Sha256M32>(t, &cfg, out),
+        1 => lms::run::<lms::Sha256M24>(t, &cfg, out),
+        2 => lms::run::<lms::ShakeM32>(t, &cfg, out),
+        _ => lms::run::<lms::ShakeM24>(t, &cfg, out),
+    }
+}
+
 pub fn registry() -> Vec<Engine> {
     vec![
         Engine { name: "hash", run: run_hash, hang_allowance_s: 60 },
         Engine { name: "frost", run: run_frost, hang_allowance_s: 300 },
+        Engine { name: "lms", run: run_lms, hang_allowance_s: 300 },
     ]
 }
 
